@@ -1,6 +1,7 @@
 package checks
 
 import (
+	"crypto"
 	"errors"
 	"fmt"
 	"strings"
@@ -111,6 +112,13 @@ func runC11(c *Ctx) {
 			for j, k := range arr {
 				vk[j] = VKey{int64(k.Alg), k.Pub}
 				vs[j] = k.Verifier
+				if rep%8 == 7 {
+					// a caller's own verifier type that says more about itself than the interface asks for
+					// (a key-store handle naming its key): verifiers are matched to signatures by position
+					// and judged by Verify alone
+					vs[j] = talkativeVerifier{k.Verifier, []byte(fmt.Sprintf("key-store-entry-%d", j))}
+					rec.Event("verifier-with-extra-methods")
+				}
 			}
 			return vk, vs
 		}
@@ -676,4 +684,19 @@ func runC11(c *Ctx) {
 	rec.Require("SignMessage.Verify", 300)
 	rec.RequireClasses(100)
 	rec.Extra("grid", "for every n in 1..6: all 2^n corrupted subsets, all 2^n-1 emptied subsets, all transpositions, rotation, missing/surplus verifier, wrong key at each index, failing verifier/signer at each index - enumerated completely; header contents, keys and payloads are seeded samples")
+}
+
+// talkativeVerifier is a Verifier whose type has more methods than the interface.
+type talkativeVerifier struct {
+	cose.Verifier
+	id []byte
+}
+
+func (t talkativeVerifier) KeyID() []byte            { return t.id }
+func (t talkativeVerifier) Kid() []byte              { return t.id }
+func (t talkativeVerifier) ID() string               { return string(t.id) }
+func (t talkativeVerifier) String() string           { return "verifier " + string(t.id) }
+func (t talkativeVerifier) Public() crypto.PublicKey { return nil }
+func (t talkativeVerifier) Header() cose.Headers {
+	return cose.Headers{Protected: cose.ProtectedHeader{int64(4): t.id}}
 }
